@@ -979,6 +979,13 @@ func ParseCIDR(cidr string) ([]*net.IPNet, error) {
 		if err != nil {
 			return nil, fmt.Errorf("invalid CIDR %q", cidr)
 		}
+		// An IPv4-mapped IPv6 CIDR (::ffff:a.b.c.d/n) is parsed as a 16 bytes address
+		// with a 16 bytes mask. Return the IPv4 CIDR it denotes, so that its prefix
+		// length is comparable with the ones of the other IPv4 CIDRs.
+		if ip4 := n.IP.To4(); ip4 != nil && len(n.Mask) == net.IPv6len {
+			ones, bits := n.Mask.Size()
+			n = &net.IPNet{IP: ip4, Mask: net.CIDRMask(ones-(bits-8*net.IPv4len), 8*net.IPv4len)}
+		}
 		return []*net.IPNet{n}, nil
 	}
 
